@@ -189,6 +189,8 @@ fn block_on_flush(s: &BoxEntrySink) -> bool {
 #[derive(Default)]
 struct WorkerState {
     tl: Option<ThreadLocalTestSinkGuard>,
+    /// thread-local guard of the bystander global
+    tl2: Option<ThreadLocalTestSinkGuard>,
 }
 type Job = Box<dyn FnOnce(&mut WorkerState) -> Value + Send>;
 
@@ -263,6 +265,212 @@ fn attached(g: &'static GOps) -> bool {
     util::catch(|| (g.is_attached)()).unwrap_or(true)
 }
 
+const UNWIND_MARK: &str = "harness: unwinding through a scope that holds a guard / an attach handle";
+
+/// Drop `x` normally or by a panic unwinding through the scope that holds it (the panic is the
+/// harness's own and is caught here); Err = the drop itself panicked.
+fn drop_it<T>(x: T, unwind: bool) -> Result<(), String> {
+    if !unwind {
+        return util::catch(|| drop(x));
+    }
+    match util::catch(move || {
+        let _held = x;
+        std::panic::panic_any(UNWIND_MARK);
+    }) {
+        Err(m) if m == UNWIND_MARK => Ok(()),
+        Err(m) => Err(m),
+        Ok(()) => Ok(()),
+    }
+}
+
+// ---- bystander: a second global used on the same threads and runtimes ---------------------------
+/// The last global type of the process is reserved for the bystander.
+fn bystander_ops() -> &'static GOps {
+    &GLOBALS[GLOBALS.len() - 1]
+}
+
+struct Bystander {
+    g: &'static GOps,
+    logs: Vec<Arc<Mutex<DestLog>>>,
+    expected: Vec<Vec<u64>>,
+    handle: Option<AttachHandle>,
+    rtg: HashMap<usize, TokioRuntimeTestSinkGuard>,
+    /// expected destination per [thread][context] and per runtime worker (TLC's matrix of the last
+    /// bystander step; all none once it has been torn down)
+    dest: Value,
+    wdest: Value,
+    next_entry: u64,
+    probes: u64,
+}
+
+impl Bystander {
+    /// execute a TLC history (routing operations only) on the bystander global
+    fn setup(lane: &Lane, steps: &[Value], tperm: &[usize], rperm: &[usize], mism: &mut Vec<Value>) -> Option<Bystander> {
+        let g = bystander_ops();
+        // it must start without any destination in any context (a leak of an earlier behaviour - possible
+        // only when the code under test is broken - would make its oracle meaningless)
+        for w in &lane.workers {
+            let rts = lane.rts.clone();
+            let r = w.run(Box::new(move |_| json!((0..=2usize).any(|c| in_ctx(&rts, c, Flavour::Enter, || attached(g))))));
+            if r == true {
+                return None;
+            }
+        }
+        let mut by = Bystander { g, logs: vec![], expected: vec![], handle: None, rtg: HashMap::new(),
+                                 dest: json!([[0, 0, 0], [0, 0, 0]]), wdest: json!([0, 0]), next_entry: 500_000, probes: 0 };
+        for (i, st) in steps.iter().enumerate() {
+            let op = st["op"].as_str().unwrap();
+            let mt = st["t"].as_u64().unwrap() as usize;
+            let mc = st["c"].as_u64().unwrap() as usize;
+            let real = if mc == 0 { 0 } else { rperm[mc - 1] };
+            let mut fresh = || {
+                let log = Arc::new(Mutex::new(DestLog::default()));
+                by.logs.push(log.clone());
+                by.expected.push(vec![]);
+                BoxEntrySink::new(RecSink(log, 0))
+            };
+            let out = match op {
+                "Attach" => {
+                    let s = fresh();
+                    match util::catch(|| (g.attach)(s, Box::new(()))) {
+                        Ok(h) => {
+                            by.handle = Some(h);
+                            "ok"
+                        }
+                        Err(_) => "panic",
+                    }
+                }
+                "DropHandle" => {
+                    let _ = util::catch(|| drop(by.handle.take()));
+                    "ok"
+                }
+                "SetTL" => {
+                    let s = fresh();
+                    let r = lane.workers[tperm[mt - 1]].run(Box::new(move |w| match util::catch(|| (g.set_tl)(s)) {
+                        Ok(guard) => {
+                            w.tl2 = Some(guard);
+                            json!("ok")
+                        }
+                        Err(_) => json!("panic"),
+                    }));
+                    if r == "ok" { "ok" } else { "panic" }
+                }
+                "DropTL" => {
+                    lane.workers[tperm[mt - 1]].run(Box::new(move |w| {
+                        let _ = util::catch(|| drop(w.tl2.take()));
+                        json!("ok")
+                    }));
+                    "ok"
+                }
+                "SetRTFor" => {
+                    let s = fresh();
+                    let h = lane.rts[real - 1].handle().clone();
+                    match util::catch(|| (g.set_rt_for)(&h, s)) {
+                        Ok(guard) => {
+                            by.rtg.insert(real, guard);
+                            "ok"
+                        }
+                        Err(_) => "panic",
+                    }
+                }
+                "SetRTCur" => {
+                    let s = fresh();
+                    match in_ctx(&lane.rts, real, Flavour::Enter, || util::catch(|| (g.set_rt_cur)(s))) {
+                        Ok(guard) => {
+                            by.rtg.insert(real, guard);
+                            "ok"
+                        }
+                        Err(_) => "panic",
+                    }
+                }
+                "DropRT" => {
+                    let guard = by.rtg.remove(&real);
+                    let _ = util::catch(|| drop(guard));
+                    "ok"
+                }
+                _ => break, // Forget and appends are not part of a bystander history
+            };
+            if out != st["out"].as_str().unwrap() && !(op == "SetRTCur" && mc == 0) {
+                mism.push(json!({"step": i, "op": op, "what": "outcome of the operation on the bystander global (before the history proper)",
+                                 "expected": st["out"], "got": out}));
+            }
+            by.dest = st["dest"].clone();
+            by.wdest = st["wdest"].clone();
+        }
+        Some(by)
+    }
+
+    /// drop everything the bystander holds: from now on it has no destination anywhere
+    fn teardown(&mut self, lane: &Lane) {
+        for w in &lane.workers {
+            w.run(Box::new(|w| {
+                let _ = util::catch(|| drop(w.tl2.take()));
+                json!({})
+            }));
+        }
+        let guards = std::mem::take(&mut self.rtg);
+        let _ = util::catch(move || drop(guards));
+        let h = self.handle.take();
+        let _ = util::catch(move || drop(h));
+        self.dest = json!([[0, 0, 0], [0, 0, 0]]);
+        self.wdest = json!([0, 0]);
+    }
+
+    /// every caller try_appends through the bystander global: its routing must be what its own
+    /// history says, whatever has been done to the other global in between
+    fn probe(&mut self, lane: &Lane, tperm: &[usize], rperm: &[usize], step: usize, after: &str, mism: &mut Vec<Value>) {
+        let g = self.g;
+        for t in 1..=2usize {
+            let mut plan: Vec<(usize, usize, u64, usize)> = Vec::new();
+            for c in 0..=2usize {
+                let d = self.dest[t - 1][c].as_u64().unwrap() as usize;
+                plan.push((c, if c == 0 { 0 } else { rperm[c - 1] }, self.next_entry, d));
+                self.next_entry += 1;
+                self.probes += 1;
+            }
+            let rts = lane.rts.clone();
+            let plan2 = plan.clone();
+            let r = lane.workers[tperm[t - 1]].run(Box::new(move |_| {
+                Value::Array(plan2.iter().map(|(_, real, e, _)| json!(in_ctx(&rts, *real, Flavour::Enter, || do_append(g, "TryAppend", *e)).0)).collect())
+            }));
+            for (k, (c, _, e, d)) in plan.iter().enumerate() {
+                let exp = if *d != 0 { "ok" } else { "back" };
+                if *d != 0 {
+                    self.expected[*d - 1].push(*e);
+                }
+                if r[k] != exp {
+                    mism.push(json!({"step": step, "after": after, "what": format!("try_append through the OTHER global (bystander, untouched by this operation) by thread {t} in context {c}"),
+                                     "entry": e, "expected_dest": d, "expected": exp, "got": r[k]}));
+                }
+            }
+        }
+        for r in 1..=2usize {
+            let d = self.wdest[r - 1].as_u64().unwrap() as usize;
+            let e = self.next_entry;
+            self.next_entry += 1;
+            self.probes += 1;
+            let jh = lane.rts[rperm[r - 1] - 1].spawn(async move { do_append(g, "TryAppend", e).0 });
+            let out = futures::executor::block_on(jh).unwrap_or_else(|_| "panic".into());
+            let exp = if d != 0 { "ok" } else { "back" };
+            if d != 0 {
+                self.expected[d - 1].push(e);
+            }
+            if out != exp {
+                mism.push(json!({"step": step, "after": after, "what": format!("try_append through the OTHER global (bystander) by a task on runtime {r}'s worker thread"),
+                                 "entry": e, "expected_dest": d, "expected": exp, "got": out}));
+            }
+        }
+        for (k, log) in self.logs.iter().enumerate() {
+            let gl = log.lock().unwrap();
+            if gl.got != self.expected[k] {
+                mism.push(json!({"step": step, "after": after, "what": format!("entries received by sink {} of the OTHER global (bystander)", k + 1),
+                                 "expected": self.expected[k], "got": gl.got}));
+                self.expected[k] = gl.got.clone();
+            }
+        }
+    }
+}
+
 fn kind_name(k: u32) -> &'static str {
     ["Append", "TryAppend", "Sink"][k as usize % 3]
 }
@@ -294,7 +502,7 @@ fn replay_one(lane: &mut Lane, b: &Value, seed: u64) -> Value {
     let mut rng = util::rng(seed ^ id.wrapping_mul(0x9E37_79B9_7F4A_7C15));
     // a fresh (detached) global
     let g: &'static GOps = loop {
-        if lane.next_type >= GLOBALS.len() {
+        if lane.next_type >= GLOBALS.len() - 1 {
             return json!({"id": id, "skipped": true});
         }
         let g = &GLOBALS[lane.next_type];
@@ -314,6 +522,14 @@ fn replay_one(lane: &mut Lane, b: &Value, seed: u64) -> Value {
     let rc = |c: usize| if c == 0 { 0 } else { rperm[c - 1] };
     let mut sinks = Sinks { logs: vec![], is_async: vec![], expected: vec![] };
     let mut mism: Vec<Value> = Vec::new();
+    // a second global, set up by its own TLC history on the same threads and runtimes, probed after every
+    // step of this history and torn down somewhere in the middle
+    let mut by: Option<Bystander> = match b["bystander"].as_array() {
+        Some(bs) => Bystander::setup(lane, bs, &tperm, &rperm, &mut mism),
+        None => None,
+    };
+    let by_teardown_at = rng.random_range(0..=steps.len() + 1);
+    let mut unwound = 0u64;
     let mut drift: Vec<Value> = Vec::new();
     let mut handle: Arc<Mutex<Option<AttachHandle>>> = Arc::new(Mutex::new(None));
     let mut forgot = false;
@@ -383,9 +599,12 @@ fn replay_one(lane: &mut Lane, b: &Value, seed: u64) -> Value {
             }
             "DropHandle" => {
                 let hslot = handle.clone();
+                // the scope that owns the handle is left normally or by a panic (same Detach step)
+                let unw = rng.random_range(0..3) == 0;
+                unwound += unw as u64;
                 let r = lane.workers[any_w].run(Box::new(move |_| {
                     let h = hslot.lock().unwrap().take();
-                    match in_ctx(&rts, any_c, Flavour::Enter, || util::catch(|| drop(h))) {
+                    match in_ctx(&rts, any_c, Flavour::Enter, || drop_it(h, unw)) {
                         Ok(()) => json!({"out": "ok"}),
                         Err(m) => json!({"out": "panic", "msg": m}),
                     }
@@ -415,9 +634,11 @@ fn replay_one(lane: &mut Lane, b: &Value, seed: u64) -> Value {
                 r["out"].as_str().unwrap().to_string()
             }
             "DropTL" => {
+                let unw = rng.random_range(0..3) == 0;
+                unwound += unw as u64;
                 let r = lane.workers[tperm[mt - 1]].run(Box::new(move |w| {
                     let guard = w.tl.take();
-                    match in_ctx(&rts, any_c, fl, || util::catch(|| drop(guard))) {
+                    match in_ctx(&rts, any_c, fl, || drop_it(guard, unw)) {
                         Ok(()) => json!({"out": "ok"}),
                         Err(m) => json!({"out": "panic", "msg": m}),
                     }
@@ -479,9 +700,11 @@ fn replay_one(lane: &mut Lane, b: &Value, seed: u64) -> Value {
             "DropRT" => {
                 let real = rc(mc);
                 let guards = rtg.clone();
+                let unw = rng.random_range(0..3) == 0;
+                unwound += unw as u64;
                 let r = lane.workers[any_w].run(Box::new(move |_| {
                     let guard = guards.lock().unwrap().remove(&real);
-                    match in_ctx(&rts, any_c, fl, || util::catch(|| drop(guard))) {
+                    match in_ctx(&rts, any_c, fl, || drop_it(guard, unw)) {
                         Ok(()) => json!({"out": "ok"}),
                         Err(m) => json!({"out": "panic", "msg": m}),
                     }
@@ -579,6 +802,15 @@ fn replay_one(lane: &mut Lane, b: &Value, seed: u64) -> Value {
                 }
             }
         }
+        // ---- the other global is not affected by any of this
+        if let Some(by) = by.as_mut() {
+            if i == by_teardown_at {
+                by.teardown(lane);
+            }
+            if pre_done.is_none() {
+                by.probe(lane, &tperm, &rperm, i, op, &mut mism);
+            }
+        }
         // ---- where did the entries arrive? (exactly one destination, the expected one)
         if let Some(f) = &flusher {
             if !block_on_flush(f) {
@@ -631,6 +863,14 @@ fn replay_one(lane: &mut Lane, b: &Value, seed: u64) -> Value {
     let _ = util::catch(|| drop(h));
     handle = Arc::new(Mutex::new(None));
     let _ = &handle;
+    // dropping this global's guards and handle must not have touched the other global either
+    let mut by_probes = 0u64;
+    if let Some(mut by) = by.take() {
+        by.probe(lane, &tperm, &rperm, steps.len(), "cleanup", &mut mism);
+        by.teardown(lane);
+        by.probe(lane, &tperm, &rperm, steps.len(), "bystander teardown", &mut mism);
+        by_probes = by.probes;
+    }
     // with every guard and the handle gone no caller may see a destination any more
     let mut leak: Vec<String> = Vec::new();
     if !forgot {
@@ -657,7 +897,7 @@ fn replay_one(lane: &mut Lane, b: &Value, seed: u64) -> Value {
         lane.next_type += 1;
     }
     json!({"id": id, "global": g.name, "mismatches": mism, "drift": drift, "probes": nprobes, "steps": steps.len(),
-           "ctx_flavours": flavours, "concurrent_guard_drops": par_pairs, "sinks": sinks.logs.len(), "async_sinks": sinks.is_async.iter().filter(|x| **x).count()})
+           "ctx_flavours": flavours, "concurrent_guard_drops": par_pairs, "bystander_probes": by_probes, "drops_by_unwinding": unwound, "sinks": sinks.logs.len(), "async_sinks": sinks.is_async.iter().filter(|x| **x).count()})
 }
 
 fn cmd_replay(a: &HashMap<String, String>) {
@@ -700,6 +940,9 @@ struct Ctl {
     sink: usize,
     delay_us: u64,
     hold_us: u64,
+    /// the scope owning the attach handle is left by a panic (caught) instead of normally
+    #[serde(default)]
+    unwind: bool,
 }
 
 #[derive(serde::Deserialize, Clone, Debug)]
@@ -851,8 +1094,9 @@ fn run_race(sc: &Race, type_idx: &mut usize) {
                     std::thread::sleep(Duration::from_micros(c.hold_us));
                     trace::evi("DetachStart", &[("s", s)]);
                     let (tx, rx) = mpsc::channel();
+                    let unw = c.unwind;
                     let t = std::thread::spawn(move || {
-                        let r = util::catch(|| drop(handle));
+                        let r = drop_it(handle, unw);
                         let _ = tx.send(r.is_ok());
                     });
                     match rx.recv_timeout(BUDGET) {
